@@ -231,11 +231,20 @@ def _read_parameter_type(
     parsed_values.param_types[param_name] = param_type
     param = parsed_values.parameters.get(param_name)
     if param is not None:
-        if param.annotation is None:
+        # The "type" directive takes precedence over the annotation of the signature,
+        # also when it is written after the "param" directive (which then fell back to the signature).
+        if param.annotation is None or param.annotation is _signature_annotation(docstring, param_name):
             param.annotation = param_type
         else:
             docstring_warning(docstring, 0, f"Duplicate parameter information for '{param_name}'")
     return parsed_directive.next_index
+
+
+def _signature_annotation(docstring: Docstring, name: str) -> Any:
+    try:
+        return docstring.parent.parameters[name.lstrip()].annotation  # type: ignore[union-attr]
+    except (AttributeError, KeyError, AliasResolutionError, CyclicAliasError):
+        return None
 
 
 def _read_attribute(
